@@ -1101,6 +1101,27 @@ fn run_case(c: &Case) -> Outcome {
     }
 }
 
+/// The malformed / oversized inbound length prefixes of group G4 on the default carrier, as (case, violations) —
+/// used by C19 for its "no decoder panics on a peer-chosen length prefix" clause.
+pub fn raw_prefix_panics(combo_len: usize) -> (u64, Vec<(String, String, Value)>) {
+    let carriers = vec![Carrier::default()];
+    let mut cases = Vec::new();
+    for m in VARINT_MAXIMA {
+        cases.extend(raw_cases(Some(m), &carriers, combo_len));
+    }
+    cases.extend(raw_cases(None, &carriers, combo_len));
+    let mut out = Vec::new();
+    let n = cases.len() as u64;
+    for c in &cases {
+        for (sig, what) in run_case(c).viols {
+            if sig.contains("panic") {
+                out.push((sig, what, serde_json::to_value(c).unwrap_or_default()));
+            }
+        }
+    }
+    (n, out)
+}
+
 pub fn replay(case: &Value) -> Result<String, String> {
     let c: Case = serde_json::from_value(case.clone()).map_err(|e| format!("bad case: {e}"))?;
     let o = run_case(&c);
